@@ -104,6 +104,12 @@ CHECKS = {
         "assumptions": A_SIM + ["allow-lists are printable ASCII origins as the configuration documents"],
         "parts": [sim(400, 6000)],
     },
+    "C10": {
+        "level": "exploration",
+        "rule": "rapid stateful generation with 2-4 WebSocket connections plus HTTP requests, distinct tokens and token ids, {cid} tags in resource names, in the middle of names, in queries and in references returned by the service, token events, token resets, events on per-connection resources; oracle over the logs: requests caused by a connection's own frame/request/token event carry that connection's id, every access/call/auth payload carries that connection's current token, no subject or query made for one connection contains another connection's id, no frame or HTTP body sent to any client contains any connection id, events on a {cid} resource reach only its owner, a token reset produces exactly one auth request per connection whose token id is listed; plus the applicability oracle of C02. Non-trivial = >= 2 connections, a {cid} resource in use and a token-related event; distinct by script hash",
+        "assumptions": A_SIM + ["cid leakage is a substring scan: a transformed cid would not be recognised"],
+        "parts": [sim(300, 5000)],
+    },
     "C07": {
         "level": "exploration",
         "rule": "rapid stateful generation of request mixes (1-2 connections, subscribe/get/unsubscribe/call/auth/new/ill-formed methods, every outcome and order of the dependent access/get/call answers, events, deletes, revocations), end-of-history epilogue answering everything; oracle: reference client counts responses per id (never two, never unknown, error objects with string code/message) and at quiescence every id on an open connection has exactly one. Non-trivial = >=2 requests for one rid overlapped, or an unsubscribe/unsubscribe event/delete hit a rid with a pending request; distinct by hash of the executed script",
@@ -121,6 +127,8 @@ CHECKS = {
 SIM_NOTE = "trusted: the harness (mock mq, reference client/service, quiescence detector) and rapid; exploration never proves absence; goroutine interleavings inside the gateway are sampled only"
 
 META = {
+    "C10": {"engine": "sim", "design_ref": "6 C10", "technique": "stateful property-based testing (rapid); trace invariants attributing every request, subject, token and frame to its connection",
+            "text": "multi-connection histories with {cid} resources and token traffic; every outbound request and every client frame is scanned for foreign ids and tokens.", "note": SIM_NOTE},
     "C16": {"engine": "sim", "design_ref": "6 C16", "technique": "property-based differential testing (rapid): generated resource graphs rendered through the real HTTP handler vs an independent reference renderer",
             "text": "the hand-written encoders are compared with a reference renderer on generated graphs for both encodings and all path prefixes.", "note": SIM_NOTE},
     "C17": {"engine": "sim", "design_ref": "6 C17", "technique": "property-based testing (rapid) of generated HTTP requests, service errors and meta objects against the status table and header/CORS rules",
